@@ -469,6 +469,62 @@ def element_effects():
     return out
 
 
+# ---- (h) gating of the final checks by xsd_check (XMLElement._final_checks, to_string)
+def gating_ir():
+    t = parse('musicxml/xmlelement/xmlelement.py')
+    fc = find_func(t, 'XMLElement', '_final_checks')
+    ts = find_func(t, 'XMLElement', 'to_string')
+    if fc is None or ts is None:
+        raise Fail('_final_checks / to_string not found')
+
+    def is_doc(st):
+        return isinstance(st, ast.Expr) and isinstance(st.value, ast.Constant)
+
+    def own_checks(stmts):
+        """the element's own requirements: value, required children, required attributes - and nothing else"""
+        seen = []
+        for st in stmts:
+            u = ast.unparse(st)
+            if u == 'self._check_required_value()':
+                seen.append('value')
+            elif u == 'self._check_required_attributes()':
+                seen.append('attributes')
+            elif isinstance(st, ast.If) and ast.unparse(st.test) == 'self._child_container_tree' and not st.orelse and \
+                    'get_required_element_names' in u and 'raise XMLElementChildrenRequired' in u:
+                seen.append('children')
+            else:
+                raise Fail('_final_checks: unrecognised own check: ' + u[:80])
+        if sorted(seen) != ['attributes', 'children', 'value']:
+            raise Fail('_final_checks: own checks are %s' % seen)
+
+    def is_recursion(st):
+        return isinstance(st, ast.For) and ast.unparse(st.iter) == 'self.get_children()' and not st.orelse and len(st.body) == 1 and \
+            ast.unparse(st.body[0]) == '%s._final_checks(intelligent_choice=intelligent_choice)' % ast.unparse(st.target)
+    body = [st for st in fc.body if not is_doc(st)]
+    if len(body) == 2 and isinstance(body[0], ast.If) and ast.unparse(body[0].test) == 'self.xsd_check' and not body[0].orelse and is_recursion(body[1]):
+        own_checks(body[0].body)
+        shape = 'GuardOwnThenRecurse'
+    elif len(body) == 1 and isinstance(body[0], ast.If) and ast.unparse(body[0].test) == 'self.xsd_check' and not body[0].orelse and is_recursion(body[0].body[-1]):
+        own_checks(body[0].body[:-1])
+        shape = 'GuardAll'
+    elif body and is_recursion(body[-1]):
+        own_checks(body[:-1])
+        shape = 'NoGuard'
+    else:
+        raise Fail('_final_checks: unrecognised shape')
+    tb = [st for st in ts.body if not is_doc(st)]
+    tail = ['self._create_et_xml_element()', "return ET.tostring(self.et_xml_element, encoding='unicode') + '\\n'"]
+    call = 'self._final_checks(intelligent_choice=intelligent_choice)'
+    if len(tb) == 3 and isinstance(tb[0], ast.If) and ast.unparse(tb[0].test) == 'self.xsd_check' and not tb[0].orelse and \
+            [ast.unparse(x) for x in tb[0].body] == [call] and [ast.unparse(x) for x in tb[1:]] == tail:
+        guarded = True
+    elif len(tb) == 3 and ast.unparse(tb[0]) == call and [ast.unparse(x) for x in tb[1:]] == tail:
+        guarded = False
+    else:
+        raise Fail('to_string: unrecognised shape: ' + ' | '.join(ast.unparse(x)[:50] for x in tb))
+    return {'final_checks_shape': shape, 'to_string_guarded': guarded}
+
+
 def cq(s):
     return q(str(s))
 
@@ -576,6 +632,18 @@ def main():
         o.append('Definition tr_element_ok := false. (* %s *)' % str(ex).replace('*', ' ').replace('\n', ' '))
         for k in ('add_child', 'remove', 'value_set'):
             o.append('Definition elt_%s : list eeff := [].' % k)
+    o.append('Inductive gating_shape := GuardOwnThenRecurse | GuardAll | NoGuard.')
+    try:
+        gi = gating_ir()
+        side['gating'] = gi
+        o.append('Definition tr_gating_ok := true.')
+        o.append('Definition final_checks_shape := %s.' % gi['final_checks_shape'])
+        o.append('Definition to_string_guarded := %s.' % ('true' if gi['to_string_guarded'] else 'false'))
+    except Fail as ex:
+        side['gating'] = 'FAILED: ' + str(ex)
+        o.append('Definition tr_gating_ok := false. (* %s *)' % str(ex).replace('*', ' ').replace('\n', ' '))
+        o.append('Definition final_checks_shape := NoGuard.')
+        o.append('Definition to_string_guarded := false.')
     ch = write_if_changed(os.path.join(VERIF, 'coq', 'Gen', 'Code.v'), '\n'.join(o) + '\n')
     write_if_changed(os.path.join(VERIF, 'build', 'code.json'), json.dumps(side, sort_keys=True, indent=1))
     print('code: write=%s opens=%s prints=%s caches=%s changed=%s' % (
